@@ -5,6 +5,7 @@ import (
 	"context"
 	"encoding/binary"
 	"fmt"
+	"reflect"
 	"sort"
 	"strconv"
 	"strings"
@@ -97,7 +98,17 @@ const c06RecoverySends = 6
 
 const c06DefaultLicense = "x41-default-license"
 
-func c06MakePack(id int, kind int, size int, pcode int64) pack.Pack {
+// c06Kind: object kind / node ids are name hashes: any int32, zero included, in any combination
+func c06Kind(id int) (okind, onode int32) {
+	return []int32{0, 7, -7, 0, 2041}[id%5], []int32{0, 0, 3, -9, -739397152}[id%5]
+}
+
+func c06MakePack(id int, kind int, size int, pcode int64) (p0 pack.Pack) {
+	defer func() {
+		ok, on := c06Kind(id)
+		p0.SetOKIND(ok)
+		p0.SetONODE(on)
+	}()
 	pad := ""
 	if size > 0 {
 		pad = strings.Repeat("z", size)
@@ -124,7 +135,6 @@ func c06MakePack(id int, kind int, size int, pcode int64) pack.Pack {
 		p := pack.NewTagCountPack()
 		p.Pcode = pcode
 		p.Oid = int32(id)
-		p.Okind = 7 // second header form
 		p.Time = int64(id)
 		p.Category = "sim"
 		p.PutTag("id", text)
@@ -533,6 +543,22 @@ func c06After(rc *RunCtx, res *simrt.Result) {
 				}
 				viol("O2-content", msg)
 			} else {
+				// the frame "decodes to exactly the pack that was sent": header fields of the
+				// decoded pack against what was put into the sent one (the expected frame above
+				// comes from golib's own encoder, which could drop a field on both sides)
+				func() {
+					defer func() {
+						if r := recover(); r != nil {
+							viol("O2-content", fmt.Sprintf("conn#%d: frame of pack id %d does not decode: %v", c.Ordinal, s.ID, r))
+						}
+					}()
+					q := pack.ToPack(fr[22:])
+					ok, on := c06Kind(s.ID)
+					fld := func(n string) int64 { return reflect.ValueOf(q).Elem().FieldByName(n).Int() }
+					if q == nil || fld("Pcode") != s.Pcode || fld("Oid") != int64(s.ID) || fld("Okind") != int64(ok) || fld("Onode") != int64(on) || fld("Time") != int64(s.ID) {
+						viol("O2-content", fmt.Sprintf("conn#%d: frame of pack id %d decodes to pcode=%d oid=%d okind=%d onode=%d time=%d, the pack sent had pcode=%d oid=%d okind=%d onode=%d time=%d", c.Ordinal, s.ID, fld("Pcode"), fld("Oid"), fld("Okind"), fld("Onode"), fld("Time"), s.Pcode, s.ID, ok, on, s.ID))
+					}
+				}()
 				f := c06Frm{conn: c.Ordinal, start: pos, end: pos + 22 + ln, id: s.ID}
 				for _, a := range d.arrivals {
 					if a.conn == c.Ordinal && a.upto >= f.end {
